@@ -772,7 +772,10 @@ class FnEval:
     def ev_path(self, e):
         res = e.get("res", {})
         if res.get("k") == "local":
-            return self.env.get(res["id"])
+            v = self.env.get(res["id"])
+            if is_s(v) and v[1] in (LEN, ZERO, CONST) and v[2] is None and res["id"] in self.__dict__.get("byte_locals", ()):
+                return S(BYTE, None, "pos")
+            return v
         if res.get("k") == "def":
             if res.get("dk", "").startswith("Ctor") and res.get("path", "").endswith("::None"):
                 return O(None)
@@ -1376,7 +1379,8 @@ class FnEval:
         if self.report and e.get("op") in ("<", "<=", ">", ">="):
             sl, sr = self.expr_side(l, e["l"]), self.expr_side(r, e["r"])
             kinds_ok = all((v == ANY) or (is_s(v) and v[1] in (LEN, ZERO, CONST)) for v in (l, r))
-            if kinds_ok and sl and sr:
+            both_totals = is_s(l) and is_s(r) and l[1] == LEN and r[1] == LEN and l[4] is not None and r[4] is not None
+            if kinds_ok and sl and sr and not both_totals:     # comparing the total lengths of two sequences is legitimate
                 self.ctx.ob("A7", sl == sr, "%s: `%s` compares a %s-side with a %s-side quantity" % (
                     self.fn.path, e.get("src", ""), _sn(sl), _sn(sr)))
                 if sl != sr:
@@ -1414,6 +1418,18 @@ class FnEval:
             return R(ABSENT, vals.get("end", (ANY, 0))[0])
         if adt == "std::ops::RangeInclusive":
             return R(vals.get("start", (ANY, 0))[0], vals.get("end", (ANY, 0))[0])
+        if adt == "types::Change" and self.report and "tag" in vals and "value" in vals:
+            tv, vv = vals["tag"][0], vals["value"][0]
+            tagname = tv[1].rsplit("::", 1)[-1] if isinstance(tv, tuple) and len(tv) == 3 and tv[0] == "D" and tv[1] else None
+            if tagname in ("Equal", "Delete", "Insert") and is_s(vv) and vv[1] == "Item":
+                bad_side = "N" if tagname in ("Equal", "Delete") else "O"
+                ok = vv[2] != bad_side
+                self.ctx.ob("A4", ok, "%s: Change{tag: %s, value: %s}" % (self.fn.path, tagname, show(vv)))
+                if not ok:
+                    via = (" [evaluated for the call from %s]" % self.via) if self.via else ""
+                    self.ctx.finding("A4", self.fn, "change-value-side:%s" % tagname,
+                                     "a %s change carries a value read from the %s sequence%s" % (
+                                         tagname, _sn(vv[2]), via), e["line"])
         if adt in self.ctx.prog.adts:
             srcs = {f["name"]: _norm_src(_src_of(f["e"])) for f in e["fields"]}
             for name, (v, line) in vals.items():
@@ -1467,10 +1483,28 @@ class FnEval:
             return self.field_value(adt, name)
         return ANY
 
+    def note_byte_index(self, idx_expr):
+        """A plain counter used to index the raw bytes of a text (`raw[pos]`, `raw.get(pos + 1)`) is a byte offset."""
+        hints = self.__dict__.setdefault("byte_locals", set())
+
+        def visit(n, depth=0):
+            while isinstance(n, dict) and n.get("k") in ("droptemps", "addrof", "cast"):
+                n = n["x"]
+            if not isinstance(n, dict) or depth > 3:
+                return
+            if n.get("k") == "path" and n.get("res", {}).get("k") == "local":
+                hints.add(n["res"]["id"])
+            elif n.get("k") == "binary" and n["op"] in ("+", "-"):
+                visit(n["l"], depth + 1)
+                visit(n["r"], depth + 1)
+        visit(idx_expr)
+
     def ev_index(self, e):
         bv = self.ev(e["base"])
         iv = self.ev(e["idx"])
         bty = e.get("base_ty") or ""
+        if bty.replace("&", "").replace("mut ", "").strip() in ("[u8]", "str") and not (isinstance(iv, tuple) and iv and iv[0] == "R"):
+            self.note_byte_index(e["idx"])
         if bv is None:
             return None
         if iv == ("RF",):
@@ -1484,6 +1518,8 @@ class FnEval:
                         self.index_check(bv, iv[2], e, endpoint=True)
                     return bv
                 self.index_check(bv, iv, e)
+                if bv[3] == ITEM and bv[1] in ("O", "N"):
+                    return ("S", "Item", bv[1], None, None)      # an item read from the old / new sequence
                 return bv[3] if bv[3] is not None else ANY
             if bv[0] == "C":
                 if isinstance(iv, tuple) and iv and iv[0] == "R":
@@ -1579,6 +1615,13 @@ class FnEval:
         return self.call_def(path, e["recv"], e["args"], e, e.get("gargs"), trait=e.get("trait"), name=e["name"])
 
     def apply_closure(self, fv, vals):
+        if isinstance(fv, tuple) and len(fv) == 3 and fv[0] == "D" and fv[2] in ("Fn", "AssocFn") and fv[1]:
+            # a named function used where a closure is expected: `opt.map(deletion)`
+            g = self.ctx.prog.fn(fv[1])
+            e = self.__dict__.get("_cur_e")
+            if g is not None and g.hir and not g.is_derived() and e is not None:
+                return self.call_local(g, list(vals), e)
+            return ANY
         node = self.closure_nodes.get(fv[1]) if isinstance(fv, tuple) and fv and fv[0] == "F" else None
         if node is None:
             return ANY
@@ -1674,6 +1717,12 @@ class FnEval:
             got = allv[i]
             frames |= frames_of(got)
             want = _erase_frame(sd)
+            if not g.public and is_s(got) and is_s(want) and want[1] == POS and got[1] == LEN and \
+                    (got[2] == want[2] or got[2] in (None, "B") or want[2] is None):
+                # a private helper that calls a relative offset `new_idx` (this repository does, in lcs.rs): the name
+                # fixes the side, not position-vs-offset; what the offset indexes is checked inside the helper, in the
+                # context of this call
+                continue
             self.expect(got, want, "A3", "arg:%s:%d:%s" % (_short(g.path), i, _norm_src(e.get("src", ""))),
                         "argument `%s` of %s in `%s`" % (params[i]["pat"].get("name"), _short(g.path), e.get("src", "")), line,
                         allow_zero=False)
@@ -1734,6 +1783,7 @@ class FnEval:
 
     # -------------------------------------------------------------- std / external table
     def std_call(self, path, trait, name, recv, rv, vals, e):
+        self._cur_e = e
         line = e["line"]
         ty = e.get("ty") or ""
         rty = (e.get("recv_ty") or "") if recv is not None else ""
@@ -2374,6 +2424,10 @@ def _is_called_locally(ctx, fn):
                     c = f.mir.callee(t)
                     if c and c.get("local"):
                         cache.add(c.get("resolved") or c["path"])
+                    for a in t["args"]:
+                        # a function item handed to a combinator (`opt.map(deletion)`) is called there
+                        if a.get("k") == "const" and isinstance(a.get("fn"), dict) and a["fn"].get("local"):
+                            cache.add(a["fn"]["path"])
         ctx._called = cache
     return fn.path in cache
 
